@@ -3684,8 +3684,8 @@ class TensorDictBase(MutableMapping):
         """
         if len(repeats) == 1 and not isinstance(repeats[0], int):
             repeats = repeats[0]
-            if isinstance(repeats, torch.Size):
-                return self.repeat(*repeats[0])
+            if isinstance(repeats, (torch.Size, tuple, list)):
+                return self.repeat(*repeats)
             if isinstance(repeats, torch.Tensor):
                 # This will cause cuda to sync, which may not be desirable
                 return self.repeat(*repeats.tolist())
